@@ -343,7 +343,12 @@ def d5(cx: Cx, ob: Ob) -> None:
             continue
         guards = [(g.a, g.b) for g in ctx.guards if g.kind == "guard"]
         lp = tuple(ctx.loops) if ctx.loops else None
-        branches.append((ev, y, guards, lp))
+        same = [b for b in branches if b[0].line == ev.line]
+        if same:
+            # the same statement reached through another arm of a short-circuit test
+            same[0][4].append(guards)
+        else:
+            branches.append((ev, y, guards, lp, [guards]))
         ob.site(f"{where(fn, ev.line)} {fn.qualname}", f"yield {show(y)[:50]}")
         if not any(op(g) == "cmp" and g[1] == "in" and g[2] == Pq and g[3] == ("attr", me, "query_predicates") and pol is True for g, pol in guards):
             ob.violate(fn.qualname, where(fn, ev.line), "a triple is produced without the queried predicate being one of the configured predicates", detail="predicate-guard")
@@ -357,7 +362,7 @@ def d5(cx: Cx, ob: Ob) -> None:
         return substitute(t, {("tmpS",): O, ("tmpO",): S})
 
     def shape(b):
-        ev, y, guards, lp = b
+        ev, y, guards, lp, alts = b
         if lp is None:
             return None
         # name the loop variables by their source (itertools.product or nested loops)
@@ -373,7 +378,7 @@ def d5(cx: Cx, ob: Ob) -> None:
             elif op(tgt) == "bv":
                 ren[tgt] = ("elem", _strip_views(it))
         yy = substitute(y, ren)
-        gg = frozenset((g, pol) for g, pol in guards if any(x in (S, O) for x in subterms(g)))
+        gg = [frozenset((g, pol) for g, pol in gs if any(x in (S, O) for x in subterms(g))) for gs in alts]
         return yy, gg
 
     a, b = shape(branches[0]), shape(branches[1])
@@ -383,8 +388,6 @@ def d5(cx: Cx, ob: Ob) -> None:
     ya, ga = a
     yb, gb = b
     # which side is bound in each branch
-    for (yy, gg), (ev, y, guards, lp) in ((a, branches[0]), (b, branches[1])):
-        pass
     myb = mirror(yb)
     myb = ("tuple", (myb[1][2], myb[1][1], myb[1][0]))
     if ya != myb:
@@ -433,7 +436,7 @@ def d5(cx: Cx, ob: Ob) -> None:
         return out
 
     try:
-        ra, rb = region(ga), region(gb)
+        ra, rb = set().union(*map(region, ga)), set().union(*map(region, gb))
     except _U as e:
         ob.undecide(f"triples: guard `{e}` on the pattern sides not recognised")
         ra = rb = None
